@@ -59,7 +59,9 @@ Record InvW (s : st) : Prop := {
   (* no dangling registration on the receive side — unless the F-06 event happened *)
   w_arq_reg : t06 (tn s) = false -> forall f w, In (f, w) (arq s) -> exists x, getF f s = Some x /\ f_reg x = true;
   w_freed : freed s = negb (any_live s);
-  w_taint : taint_ok (fx s) (tn s)
+  w_taint : taint_ok (fx s) (tn s);
+  (* a SendFuture that has not completed still holds its item *)
+  w_item : forall f x, getF f s = Some x -> f_recv x = false -> f_done x = false -> f_item x <> None
 }.
 
 Record InvK (s : st) : Prop := {
@@ -258,7 +260,10 @@ Proof.
       change (getF f1 (setF f x' s) = Some y). rewrite getF_setF.
       destruct (N.eqb_spec f1 f); [contradiction | exact Hy].
     - exact w_freed0.
-    - exact w_taint0. }
+    - exact w_taint0.
+    - intros f1 y Hy Hr Hd. change (getF f1 (setF f x' s) = Some y) in Hy. getF_cases Hy.
+      + apply (w_item0 f x Hg); assumption.
+      + eapply w_item0; eauto. }
   assert (Hcnt : forall P, (cnt P (fs s') + b2n (P x) = cnt P (fs s) + b2n (P x'))%nat).
   { intros P. subst s'. st_simpl. apply cnt_setF; [apply (w_fnd s HW) | exact Hg]. }
   assert (HKs : InvK s' /\ (t06 (tn s) = false -> t12 (tn s) = false ->
@@ -349,7 +354,10 @@ Proof.
       destruct (w_arq_k0 f1 w1 Hi) as [z [Hz Hrz]].
       destruct (N.eqb_spec f1 f) as [->|]; [congruence | exact Hy].
     - exact w_freed0.
-    - exact w_taint0. }
+    - exact w_taint0.
+    - intros f1 y Hy Hr Hd. change (getF f1 (setF f x' s) = Some y) in Hy. getF_cases Hy.
+      + apply (w_item0 f x Hg); assumption.
+      + eapply w_item0; eauto. }
   assert (Hcnt : forall P, (cnt P (fs s') + b2n (P x) = cnt P (fs s) + b2n (P x'))%nat).
   { intros P. subst s'. st_simpl. apply cnt_setF; [apply (w_fnd s HW) | exact Hg]. }
   assert (HKs : InvK s' /\ (t12 (tn s) = false -> (ncap s <= nq s + cnt pi_s (fs s') - 1)%nat \/ cnt pw_s (fs s') = 0%nat)).
@@ -634,7 +642,10 @@ Proof.
       destruct (N.eqb_spec f1 f) as [->|]; [|eauto].
       exists x'. subst x'. cbn. rewrite Hg in Hy. inversion Hy; subst. auto.
     - exact w_freed0.
-    - exact w_taint0. }
+    - exact w_taint0.
+    - intros f1 y Hy Hr Hd. change (getF f1 (setF f x' s) = Some y) in Hy. getF_cases Hy.
+      + apply (w_item0 f x Hg); assumption.
+      + eapply w_item0; eauto. }
   assert (Hcnt : forall P, (cnt P (fs s') + b2n (P x) = cnt P (fs s) + b2n (P x'))%nat).
   { intros P. subst s'. apply cnt_setF; [apply (w_fnd s HW) | exact Hg]. }
   split; [|split; [exact HWs|]].
@@ -828,9 +839,10 @@ Lemma InvW_upd f x x' arq' asq' s :
   (sc s = 0 -> In f (akeys arq') -> is_waiting (f_state x') = false) ->
   (rc s = 0 -> In f (akeys asq') -> is_waiting (f_state x') = false) ->
   (t06 (tn s) = false -> In f (akeys arq') -> f_reg x' = true) ->
+  (f_recv x' = false -> f_done x' = false -> f_item x' <> None) ->
   InvW (with_arq arq' (with_asq asq' (setF f x' s))).
 Proof.
-  intros HW Hg Er Eh El Hreg Hnd1 Hnd2 Hq1 Hq2 Hk1 Hk2 Hwq Hs0 Hr0 Ht6.
+  intros HW Hg Er Eh El Hreg Hnd1 Hnd2 Hq1 Hq2 Hk1 Hk2 Hwq Hs0 Hr0 Ht6 Hit.
   destruct HW. constructor; unfold any_live in *; st_simpl.
   - exact w_hnd0.
   - apply NoDup_aset. exact w_fnd0.
@@ -866,6 +878,9 @@ Proof.
     + destruct (Hq1 f1 w1 Hi) as [[_ Ho]|[E _]]; [|contradiction]. eapply w_arq_reg0; eauto.
   - exact w_freed0.
   - exact w_taint0.
+  - intros f1 y Hy Hr Hd. change (getF f1 (setF f x' s) = Some y) in Hy. getF_cases Hy.
+    + apply Hit; assumption.
+    + eapply w_item0; eauto.
 Qed.
 
 (* the data part when the payload cell of f does not change *)
@@ -931,6 +946,7 @@ Proof.
     + cbn. auto.
     + cbn. auto.
     + intros _ Hi. apply unlink_keys in Hi. destruct Hi as [_ Hi]. contradiction.
+    + cbn. intros Hr. congruence.
   - exact Hrecv.
   - intros T. destruct (w_arq_reg s HW T f w Hin) as [y [Hy Hr]]. congruence.
 Qed.
@@ -967,6 +983,166 @@ Proof.
     + cbn. auto.
     + cbn. auto.
     + cbn. intros _ _. exact Hreg.
+    + cbn. apply (w_item s HW f x Hg).
   - exact Hrecv.
   - exact Hreg.
+Qed.
+
+(** ** core versions: data + well-formedness + the effect on the registration counters, without
+    assuming the wake-accounting clauses (needed where a step is momentarily one wake short) *)
+Definition eff_r (s s' : st) : Prop :=
+  cnt pw_s (fs s') = cnt pw_s (fs s) /\ cnt pi_s (fs s') = cnt pi_s (fs s) /\
+  exists b : nat, (b <= 1)%nat /\ (cnt pw_r (fs s') + b = cnt pw_r (fs s))%nat
+                  /\ (cnt pi_r (fs s') = cnt pi_r (fs s) + b)%nat
+                  /\ (b = 0%nat -> t06 (tn s) = false -> cnt pw_r (fs s) = 0%nat).
+
+Definition eff_s (s s' : st) : Prop :=
+  cnt pw_r (fs s') = cnt pw_r (fs s) /\ cnt pi_r (fs s') = cnt pi_r (fs s) /\
+  exists b : nat, (b <= 1)%nat /\ (cnt pw_s (fs s') + b = cnt pw_s (fs s))%nat
+                  /\ (cnt pi_s (fs s') = cnt pi_s (fs s) + b)%nat
+                  /\ (b = 0%nat -> cnt pw_s (fs s) = 0%nat).
+
+(* futures of the other side are not touched *)
+Definition keeps (recv : bool) (s s' : st) : Prop :=
+  forall f x, getF f s = Some x -> f_recv x = recv -> getF f s' = Some x.
+
+Lemma InvD_mark_bad hand b s : InvD hand s -> InvD hand (mark_bad b s).
+Proof. intros H. unfold mark_bad. destruct b; [|exact H]. destruct H. constructor; unfold nq, ncap, tot, cells in *; st_simpl; assumption. Qed.
+Lemma InvW_mark_bad b s : InvW s -> InvW (mark_bad b s).
+Proof. intros H. unfold mark_bad. destruct b; [|exact H]. destruct H. constructor; unfold getF, getH, any_live in *; st_simpl; assumption. Qed.
+
+Lemma pred_vals_r x :
+  f_recv x = true -> is_waiting (f_state x) = true ->
+  pw_r x = f_reg x /\ pi_r x = false /\ pw_s x = false /\ pi_s x = false /\
+  pw_r (set_state Success x) = false /\ pi_r (set_state Success x) = f_reg x /\
+  pw_s (set_state Success x) = false /\ pi_s (set_state Success x) = false.
+Proof.
+  intros Hr Hw. unfold pw_r, pi_r, pw_s, pi_s. cbn [f_recv f_reg f_state set_state is_waiting is_success].
+  rewrite Hr, Hw. destruct (f_state x); try discriminate. destruct (f_reg x); repeat split.
+Qed.
+
+Lemma pred_vals_s x :
+  f_recv x = false -> f_reg x = true -> is_waiting (f_state x) = true ->
+  pw_r x = false /\ pi_r x = false /\ pw_s x = true /\ pi_s x = false /\
+  pw_r (set_state Success x) = false /\ pi_r (set_state Success x) = false /\
+  pw_s (set_state Success x) = false /\ pi_s (set_state Success x) = true.
+Proof.
+  intros Hr Hg Hw. unfold pw_r, pi_r, pw_s, pi_s. cbn [f_recv f_reg f_state set_state is_waiting is_success].
+  rewrite Hr, Hg, Hw. destruct (f_state x); try discriminate. repeat split.
+Qed.
+
+Lemma wake_one_recv_core hand s :
+  InvD hand s -> InvW s ->
+  InvD hand (wake_one_recv s) /\ InvW (wake_one_recv s) /\ eff_r s (wake_one_recv s) /\ keeps false s (wake_one_recv s).
+Proof.
+  intros HD HW. destruct (wake_one_recv_eq s HW) as [[E Hn]|[f [w [x [Hi [Hg [Hw E]]]]]]]; rewrite E.
+  - split; [exact HD|]. split; [exact HW|]. split.
+    + unfold eff_r. split; [reflexivity|]. split; [reflexivity|]. exists 0%nat.
+      split; [clear; lia|]. split; [clear; lia|]. split; [clear; lia|]. intros _ _. apply no_waiting_r; assumption.
+    + intros f x Hf _. exact Hf.
+  - destruct (woken_r_core hand f w x s HD HW Hi Hg Hw) as (A & B & Hr & Hreg).
+    split; [apply InvD_mark_bad; exact A|]. split; [apply InvW_mark_bad; exact B|].
+    assert (Ef : fs (mark_bad (negb (f_live x)) (woken_r f w x s)) = fs (setF f (set_state Success x) s))
+      by (unfold mark_bad; destruct (negb (f_live x)); reflexivity).
+    split.
+    + unfold eff_r. rewrite Ef.
+      pose proof (cnt_setF pw_r f x (set_state Success x) s (w_fnd s HW) Hg) as C1.
+      pose proof (cnt_setF pi_r f x (set_state Success x) s (w_fnd s HW) Hg) as C2.
+      pose proof (cnt_setF pw_s f x (set_state Success x) s (w_fnd s HW) Hg) as C3.
+      pose proof (cnt_setF pi_s f x (set_state Success x) s (w_fnd s HW) Hg) as C4.
+      destruct (pred_vals_r x Hr Hw) as (V1&V2&V3&V4&V5&V6&V7&V8).
+      rewrite V1, V5 in C1. rewrite V2, V6 in C2. rewrite V3, V7 in C3. rewrite V4, V8 in C4. unfold b2n in *.
+      split; [clear - C3; lia|]. split; [clear - C4; lia|].
+      exists (if f_reg x then 1%nat else 0%nat).
+      split; [clear; destruct (f_reg x); lia|]. split; [clear - C1; destruct (f_reg x); lia|].
+      split; [clear - C2; destruct (f_reg x); lia|].
+      intros Hb T. rewrite (Hreg T) in Hb. discriminate.
+    + intros f1 y Hy Hry. unfold getF in *. rewrite Ef. change (fs (setF f (set_state Success x) s)) with (aset f (set_state Success x) (fs s)).
+      rewrite aget_aset. destruct (N.eqb_spec f1 f) as [->|]; [congruence | exact Hy].
+Qed.
+
+Lemma wake_one_send_core hand s :
+  InvD hand s -> InvW s ->
+  InvD hand (wake_one_send s) /\ InvW (wake_one_send s) /\ eff_s s (wake_one_send s) /\ keeps true s (wake_one_send s).
+Proof.
+  intros HD HW. destruct (wake_one_send_eq s HW) as [[E Hn]|[f [w [x [Hi [Hg [Hw E]]]]]]]; rewrite E.
+  - split; [exact HD|]. split; [exact HW|]. split.
+    + unfold eff_s. split; [reflexivity|]. split; [reflexivity|]. exists 0%nat.
+      split; [clear; lia|]. split; [clear; lia|]. split; [clear; lia|]. intros _. apply no_waiting_s; assumption.
+    + intros f x Hf _. exact Hf.
+  - destruct (woken_s_core false hand f w x s HD HW Hi Hg Hw) as (A & B & Hr & Hreg).
+    split; [apply InvD_mark_bad; exact A|]. split; [apply InvW_mark_bad; exact B|].
+    assert (Ef : fs (mark_bad (negb (f_live x)) (woken_s false f w x s)) = fs (setF f (set_state Success x) s))
+      by (unfold mark_bad; destruct (negb (f_live x)); reflexivity).
+    split.
+    + unfold eff_s. rewrite Ef.
+      pose proof (cnt_setF pw_r f x (set_state Success x) s (w_fnd s HW) Hg) as C1.
+      pose proof (cnt_setF pi_r f x (set_state Success x) s (w_fnd s HW) Hg) as C2.
+      pose proof (cnt_setF pw_s f x (set_state Success x) s (w_fnd s HW) Hg) as C3.
+      pose proof (cnt_setF pi_s f x (set_state Success x) s (w_fnd s HW) Hg) as C4.
+      destruct (pred_vals_s x Hr Hreg Hw) as (V1&V2&V3&V4&V5&V6&V7&V8).
+      rewrite V1, V5 in C1. rewrite V2, V6 in C2. rewrite V3, V7 in C3. rewrite V4, V8 in C4. unfold b2n in *.
+      split; [clear - C1; lia|]. split; [clear - C2; lia|].
+      exists 1%nat. split; [clear; lia|]. split; [clear - C3; lia|]. split; [clear - C4; lia|]. intros Hb. discriminate.
+    + intros f1 y Hy Hry. unfold getF in *. rewrite Ef. change (fs (setF f (set_state Success x) s)) with (aset f (set_state Success x) (fs s)).
+      rewrite aget_aset. destruct (N.eqb_spec f1 f) as [->|]; [congruence | exact Hy].
+Qed.
+
+Lemma InvW_qacc a b s : InvW s -> InvW (with_acc a (with_q b s)).
+Proof. intros H. destruct H. constructor; unfold getF, getH, any_live in *; st_simpl; assumption. Qed.
+
+Lemma InvW_qrecvd a b s : InvW s -> InvW (with_recvd a (with_q b s)).
+Proof. intros H. destruct H. constructor; unfold getF, getH, any_live in *; st_simpl; assumption. Qed.
+
+Lemma try_send_core_core v s :
+  InvD [v] s -> InvW s ->
+  match try_send_core v s with
+  | (s', TsOk) => InvD [] s' /\ InvW s' /\ rc s <> 0 /\ (nq s < ncap s)%nat /\ nq s' = (nq s + 1)%nat
+                  /\ q s' = q s ++ [v] /\ frame0 s s' /\ asq s' = asq s /\ eff_r s s' /\ keeps false s s'
+  | (s', TsFull) => s' = s /\ rc s <> 0 /\ nq s = ncap s
+  | (s', TsClosed) => s' = s /\ rc s = 0
+  end.
+Proof.
+  intros HD HW. unfold try_send_core.
+  destruct (N.eqb_spec (rc s) 0) as [E|E]; [auto|].
+  pose proof (d_cap _ _ HD) as Hcap.
+  destruct (is_full s) eqn:Ef.
+  - split; [reflexivity|]. split; [exact E|]. apply (is_full_spec s Hcap). exact Ef.
+  - pose proof (is_full_false s Hcap Ef) as Hlt.
+    destruct (wake_one_recv_core [v] s HD HW) as (A & B & Ce & Ck).
+    destruct (wake_one_recv_frame s) as (Fcap & Ffx & Fq & Fsc & Frc & Fasq & Fhs & Fnext & Facc & Frecvd & Fback & Fdropped & Ffreed & Ftn & Fdk).
+    unfold push. split; [|split; [apply InvW_qacc; exact B|]].
+    + destruct A as [A1 A2 A3]. constructor; unfold nq, ncap, tot, cells in *; st_simpl.
+      * rewrite app_length, Fq, Fcap. cbn [length]. clear - Hlt. lia.
+      * rewrite A2. rewrite app_assoc. reflexivity.
+      * intros u. specialize (A3 u). rewrite occ_app. cbn [occ] in *. clear - A3. lia.
+    + unfold frame0, nq, ncap in *. st_simpl. rewrite Fq.
+      split; [exact E|]. split; [exact Hlt|]. split; [rewrite app_length; cbn [length]; reflexivity|].
+      split; [reflexivity|]. split; [repeat split; assumption|]. split; [exact Fasq|].
+      split; [exact Ce | exact Ck].
+Qed.
+
+Lemma try_recv_core_core hand s :
+  InvD hand s -> InvW s ->
+  match try_recv_core s with
+  | (s', TrVal v) => InvD hand s' /\ InvW s' /\ q s = v :: q s' /\ recvd s' = recvd s ++ [v]
+                     /\ frame0 s s' /\ arq s' = arq s /\ acc s' = acc s /\ eff_s s s' /\ keeps true s s'
+  | (s', TrEmpty) => s' = s /\ q s = [] /\ sc s <> 0
+  | (s', TrDisc) => s' = s /\ q s = [] /\ sc s = 0
+  end.
+Proof.
+  intros HD HW. unfold try_recv_core. destruct (q s) as [|v t] eqn:Eq.
+  - destruct (N.eqb_spec (sc s) 0); auto.
+  - change (with_recvd (recvd s ++ [v]) (with_q t s)) with (popped v t s).
+    rewrite wake_one_send_popped.
+    destruct (wake_one_send_core hand s HD HW) as (A & B & Ce & Ck).
+    destruct (wake_one_send_frame s) as (Fcap & Ffx & Fq & Fsc & Frc & Farq & Fhs & Fnext & Facc & Frecvd & Fback & Fdropped & Ffreed & Ftn & Fdk).
+    unfold popped. split; [|split; [apply InvW_qrecvd; exact B|]].
+    + destruct A as [A1 A2 A3]. constructor; unfold nq, ncap, tot, cells in *; st_simpl.
+      * rewrite Fq, Eq, Fcap in *. cbn [length] in A1. clear - A1. lia.
+      * rewrite A2, Fq, Eq, Frecvd. rewrite <- app_assoc. reflexivity.
+      * intros u. specialize (A3 u). rewrite Fq, Eq, Frecvd in *. rewrite occ_app. cbn [occ] in *. clear - A3. lia.
+    + unfold frame0. st_simpl. rewrite Frecvd.
+      split; [reflexivity|]. split; [reflexivity|]. split; [repeat split; assumption|].
+      split; [exact Farq|]. split; [exact Facc|]. split; [exact Ce | exact Ck].
 Qed.
